@@ -45,6 +45,27 @@ def flatten(facts, ty, prefix="", depth=0):
     return out
 
 
+def _leaf_types(facts, ty, depth=0):
+    """field types of a key type with tuples and the crate's plain record structs expanded"""
+    ty = norm_ty(ty)
+    if depth > 3:
+        return [ty]
+    if ty.startswith("(") and ty.endswith(")"):
+        from .facts import split_generics
+
+        out = []
+        for part in split_generics(ty[1:-1]):
+            out += _leaf_types(facts, part, depth + 1)
+        return out
+    sd = facts.structs.get(ty)
+    if sd is not None and not _is_state_struct(facts, ty):
+        out = []
+        for fl in sd.get("fields", []):
+            out += _leaf_types(facts, fl["ty"], depth + 1)
+        return out
+    return [ty]
+
+
 _CACHE = {}
 
 
@@ -62,7 +83,9 @@ def layout(facts, M):
     for p, t in paths.items():
         if re.fullmatch(r"HashMap<.*,(%s)>" % "|".join(INTS), t):
             key = t[len("HashMap<") : t.rfind(",")]
-            if re.fullmatch(r"\(String,bool\)", key):
+            leaves = sorted(_leaf_types(facts, key))
+            if re.fullmatch(r"\(String,bool\)", key) or leaves == ["String", "bool"]:
+                # (pattern, case flag) — as a tuple or as a private record of exactly these two fields
                 alias[p] = "matches"
             elif "Option<char>" in key or key in facts.enums or key in facts.structs or key.startswith("("):
                 alias[p] = "printers"
